@@ -73,6 +73,15 @@ func (s *Shared) VerifStreams() []PhysicalAddress {
 	return out
 }
 
+// VerifStreamOf is the first half of the resolver Share registers: the open stream of the peer
+// as a process (nil when none is attached).
+func (s *Shared) VerifStreamOf(address PhysicalAddress) Process {
+	if stream, ok := s.streams.Load(address); ok {
+		return stream
+	}
+	return nil
+}
+
 // VerifState reads the sharing state (0 closed, 1 sharing, 2 shared, 3 closing, 4 dead).
 func (s *Shared) VerifState() uint32 { return s.state.Load() }
 
